@@ -184,7 +184,27 @@ class _SpecRaggedMixin:
         raise Unsupported(f"SpecRagged column selector {type(col).__name__}")
 
     # -- ufuncs -----------------------------------------------------------------------------
+    def _reduce_rows(self, ufunc, keepdims=False):
+        """contract of RaggedArray._reduce along the rows (proved in RaggedArray._reduce): row r gives U(identity, fold of the row), the identity for
+        an empty row; fold is the left fold of the assumed reduceat contract over the flat data"""
+        from ..sym.theory import fold_fn, identity_term
+        name = ufunc.__name__
+        if ufunc.identity is None:
+            raise Unsupported("SpecRagged row reduction with a ufunc without identity")
+        sh = self._shape
+        flat = self.ravel()
+        fold = fold_fn(name, flat)
+        k = kind_of_term(fold(z3.IntVal(0), z3.IntVal(1)))
+        ident = identity_term(ufunc, k)
+        res = SymArr.fresh((sh.n,), lambda r: z3.If(sh.L(r) > 0, apply_binary(name, ident, fold(sh.S(r), sh.S(r) + sh.L(r))), ident), k,
+                           np.dtype(bool) if k == "bool" else (np.dtype(np.int64) if self.kind == "bool" else self._dtype))
+        res.row_fold = {"fold": fold, "flat": flat, "spec": self}
+        cur().ghost.setdefault("spec_reductions", []).append(res.row_fold)
+        return res[:, None] if keepdims else res
+
     def __array_ufunc__(self, ufunc, method, *inputs, **kwargs):
+        if method == "reduce" and kwargs.get("axis", 0) in (-1, 1) and inputs[0] is self:
+            return self._reduce_rows(ufunc, keepdims=kwargs.get("keepdims", False))
         if method != "__call__" or kwargs:
             raise Unsupported(f"SpecRagged ufunc method {method}")
         name = ufunc.__name__
@@ -217,13 +237,28 @@ class _SpecRaggedMixin:
         dt = np.dtype(bool) if k == "bool" else self.dtype
         return SpecRagged(sh, f, k, dt, f"{name}({self.name})")
 
+    def __array_function__(self, func, types, args, kwargs):
+        name = getattr(func, "__name__", "")
+        if name in ("ones_like", "zeros_like", "empty_like") and args and args[0] is self:
+            dtype = np.dtype(kwargs.get("dtype") or self._dtype)
+            if dtype == np.dtype(bool):
+                val, kind = z3.BoolVal(name == "ones_like"), "bool"
+            elif dtype.kind in "iu":
+                val, kind = z3.IntVal(1 if name == "ones_like" else 0), "int"
+            else:
+                raise Unsupported(f"SpecRagged {name} with dtype {dtype}")
+            return SpecRagged(self._shape, lambda r, c_: val, kind, dtype, f"{name}({self.name})")
+        raise Unsupported(f"SpecRagged array function {name}")
+
     # -- writing ----------------------------------------------------------------------------
     def __setitem__(self, idx, value):
         if not (isinstance(idx, tuple) and len(idx) == 2 and (idx[0] is Ellipsis or (isinstance(idx[0], slice) and idx[0] == slice(None)))):
             raise Unsupported(f"SpecRagged assignment index {idx!r}")
         col = idx[1]
+        if hasattr(col, "start") and hasattr(col, "stop"):
+            return self._set_columns(col, value)
         if not isinstance(col, (numbers.Integral, np.integer, SInt)):
-            raise Unsupported("SpecRagged assignment to a column range")
+            raise Unsupported("SpecRagged assignment to a column selector of this kind")
         self._require_column(col, f"{self.name}[..., {col}] = v")
         sh, old, kind = self._shape, self.cell, self.kind
         o = as_operand(value)
@@ -276,6 +311,39 @@ class SpecRagged(metaclass=_SpecRaggedMeta):
         r = SpecRagged(shp, lambda r_, c_: f(r_, c_), kind, dtype, name)
         r.fn = f
         return r
+
+
+def _set_columns(self, col, value):
+    """x[..., a:b:s] = v  for a scalar or a ragged v whose rows have the selected lengths (contract of __setitem__ / _set_data_range):
+    selected cell number q of row r gets v[r, q], every other cell is unchanged"""
+    sh, old, kind = self._shape, self.cell, self.kind
+    a, b, s_ = col.start, col.stop, col.step
+
+    def parts(r):
+        return pyslice(SInt(sh.L(r)), a, b, s_)
+    first = lambda r: I(parts(r)[0])
+    count = lambda r: I(parts(r)[1])
+    step = lambda r: I(parts(r)[2])
+    if isinstance(value, SpecRagged):
+        c = cur()
+        r0 = z3.Int(fresh_name("pre_r"))
+        c.prove("pre(column-range assignment): the value has one row per row, as long as the selected range",
+                z3.And(value._shape.n == sh.n, z3.Implies(z3.And(0 <= r0, r0 < sh.n), value._shape.L(r0) == count(r0))), kind="pre", pool=[r0])
+        vcell = value.cell
+        v = lambda r, q: coerce_term(vcell(r, q), kind)
+    else:
+        o = as_operand(value)
+        if o[0] != "scalar":
+            raise Unsupported("SpecRagged column-range assignment with an array value")
+        v = lambda r, q: coerce_term(o[1], kind)
+    st1 = all(z3.is_int_value(z3.simplify(step(z3.Int("probe!r")))) and z3.simplify(step(z3.Int("probe!r"))).as_long() == 1 for _ in (0,))
+    if not st1:
+        raise Unsupported("SpecRagged column-range assignment with a step other than 1")
+    self.cell = lambda r, c_: z3.If(z3.And(first(r) <= c_, c_ < first(r) + count(r)), v(r, c_ - first(r)), old(r, c_))
+    self.writes += 1
+
+
+_SpecRaggedMixin._set_columns = _set_columns
 
 
 def spec_ragged_slice(log=None):
